@@ -100,7 +100,7 @@ def generic_worker(task: Tuple[Any, ...]) -> Stats:
         if max_dev:
             variants = mod.deviations(hist, max_dev)
         for h2, opts, label in variants:
-            specs = H.materialize(h2, scale=opts["scale"], row_order=row_order)
+            specs = H.materialize(h2, scale=opts["scale"], row_order=row_order, price_scale=opts.get("price_scale", 1), **({"base": opts["base"]} if opts.get("base") else {}))
             if specs is None:
                 continue
             try:
